@@ -259,7 +259,13 @@ def rule_open_check(ctx):
     ctx.check("initialize" in seq and seq.index("initialize") < seq.index("Scheduler"), wd.fq, "workflow.initialize() precedes every other component", "components are built before the database is checked", "first")
 
 
+def rule_startup_wiring(ctx):
+    """R-C05-8: what the startup rescans find reaches the code that reacts to it."""
+    shared.check_startup_rescans_wired(ctx, "the restart looks at the file system but the result goes nowhere: a file, glob match or variable that changed while StepUp was down (or while it was killed) is not acted upon and the resumed build skips steps that an uninterrupted build runs")
+
+
 RULES = [
+    Rule("R-C05-8", "startup rescans are wired to their reactions", rule_startup_wiring, min_instances=5),
     Rule("R-C05-1", "all SQL runs inside one transaction region; none nests", rule_transactions, min_instances=30),
     Rule("R-C05-2", "completion units are one transaction", rule_atomic_units, min_instances=4),
     Rule("R-C05-3", "every transient state has a recovery", rule_recovery, min_instances=10),
@@ -270,6 +276,10 @@ RULES = [
 ]
 
 MUTANTS = [
+    Mutant("rescan-files-goes-nowhere", "startup.py", in_function("rescan_files", replace_once("        path_hash_causes.append((path, old_file_hash, cause))\n", "        pass\n")), ("R-C05-8",)),
+    Mutant("rescan-nglobs-goes-nowhere", "startup.py", in_function("rescan_nglobs", replace_once("            changed_nglobs.append((nglob_i, step, new_ng))\n", "            pass\n")), ("R-C05-8",)),
+    Mutant("rescan-env-forgets-value", "startup.py", in_function("rescan_env_vars", replace_once("        changed_uses.append((node_i, name))\n", "")), ("R-C05-8",)),
+    Mutant("rescan-files-only-unconfirmed", "startup.py", in_function("rescan_files", replace_once("        path_hash_causes.append((path, old_file_hash, cause))\n", "        if cause == HashUpdateCause.CONFIRMED:\n            path_hash_causes.append((path, old_file_hash, cause))\n")), ("R-C05-8",)),
     Mutant("startup-retries-attached-only", "startup.py", in_function("reset_interrupted_steps", replace_once("workflow.steps(StepState.FAILED, include_detached=True)", "workflow.steps(StepState.FAILED)")), ("R-C05-3",)),
     Mutant("recycled-failed-stays-failed", "step.py", in_function("Step.after_recycle", replace_once("if state == StepState.FAILED or (\n            state == StepState.SUCCEEDED", "if (\n            state == StepState.SUCCEEDED")), ("R-C05-3",)),
     Mutant("delete-detached-only-after-runs", "builder.py", in_function("Builder.finalize", replace_once("            async with self.db:\n                self.workflow.delete_detached()\n", "            if self.scheduler.run_counter > 0:\n                async with self.db:\n                    self.workflow.delete_detached()\n")), ("R-C05-7",)),
